@@ -4,7 +4,8 @@
    counting allocator).  What is logic is proved: every buffer of the model is bounded by a
    size constant, and the writer's tables depend on the shape of the call sequence only.
    Only statements, `exact`, `Check` pins, `Print Assumptions` and non-vacuity examples. *)
-From MLA Require Import Base Stream EncLayer Blocks Writer Reader Repair Total TotalEnc Mem Inst.
+From MLA Require Import Base Stream EncLayer CompLayer CompWriterProofs Blocks Writer Reader Repair Total TotalEnc Mem Inst.
+From MLA Require Import MemSize MemSizeProofs MemLayers MemReaders MemRepair.
 Open Scope N_scope.
 
 (* the decrypted chunk cache holds at most CHUNK bytes in EVERY state reachable by any sequence
@@ -60,3 +61,243 @@ Print Assumptions C15_chunk_cache_bounded.
 Print Assumptions C15_repair_cache_bounded.
 Print Assumptions C15_copy_pieces_bounded.
 Print Assumptions C15_tables_depend_on_shape_only.
+
+(* ====================================================================================== *)
+(* An explicit SIZE MEASURE (theories/MemSize.v: nominal bytes of the Rust fields each model
+   component stands for) and its bounds.  Right-hand sides mention counts of calls / blocks,
+   name lengths and size constants only — never a number of bytes streamed, except the one
+   honest exception C15_comp_sizes_table_growth. *)
+
+(* ---------- archive writer ---------- *)
+
+(* EVERY call list (valid or not; appends of any size from any source), from the initial state.
+   1: the measure in terms of the dimensions of the final state; 2-3: files = start calls that
+   succeeded, name bytes = their names; 4: open <= files; 5: runs + open <= 2 * files + append
+   calls (a start records one offset, an append call of ANY size at most one, an end at most
+   one); 6-7: the bounds: W_FIXED + 208 per file + 8 per run + the names; and with counts of
+   calls only: W_FIXED + 224 per start call + 8 per append call + the names given. *)
+Theorem C15_writer_mem_bound :
+  forall FNMAX TS TC TA TE H order ops,
+    let s := fst (wrun FNMAX TS TC TA TE H order w_init ops) in
+    wmem s = W_FIXED + (FILES_ENTRY + IDS_ENTRY) * nfiles s + OFFSET_WORD * nruns s
+             + names_bytes (w_files s) + OPEN_ENTRY * nopen s /\
+    nfiles s = ok_starts FNMAX TS TC TA TE H order w_init ops /\
+    names_bytes (w_files s) = ok_names FNMAX TS TC TA TE H order w_init ops /\
+    nopen s <= nfiles s /\
+    nruns s + nopen s <= 2 * nfiles s + n_append ops /\
+    wmem s <= W_FIXED + (FILES_ENTRY + IDS_ENTRY + OPEN_ENTRY) * ok_starts FNMAX TS TC TA TE H order w_init ops
+              + OFFSET_WORD * nruns s + ok_names FNMAX TS TC TA TE H order w_init ops /\
+    wmem s <= W_FIXED + (FILES_ENTRY + IDS_ENTRY + OPEN_ENTRY + 2 * OFFSET_WORD) * n_start ops
+              + OFFSET_WORD * n_append ops + n_names ops.
+Proof. exact writer_mem_bound. Qed.
+
+(* from any state *)
+Theorem C15_writer_mem_growth :
+  forall FNMAX TS TC TA TE H order ops s,
+    wmem (fst (wrun FNMAX TS TC TA TE H order s ops)) <=
+    wmem s + (FILES_ENTRY + IDS_ENTRY + OPEN_ENTRY + 2 * OFFSET_WORD) * n_start ops
+    + OFFSET_WORD * n_append ops + n_names ops + OFFSET_WORD * nopen s.
+Proof. exact writer_mem_growth. Qed.
+
+(* call lists of the same shape have the SAME measure, whatever the sizes of their appends *)
+Theorem C15_writer_mem_shape_only :
+  forall FNMAX TS TC TA TE H order ops1 ops2 s1 s2,
+    dims s1 = dims s2 -> Forall2 same_shape ops1 ops2 ->
+    wmem (fst (wrun FNMAX TS TC TA TE H order s1 ops1)) = wmem (fst (wrun FNMAX TS TC TA TE H order s2 ops2)).
+Proof. exact wmem_depends_on_shape_only. Qed.
+
+(* non-vacuity: 10 bytes or 5000 bytes per append: same shape, same measure (508 = 208 + 3
+   files * 80 + 7 runs * 8 + 4 name bytes, no file open); the bound with counts of calls:
+   208 + 224 * 3 + 8 * 4 + 4 = 916 *)
+Example C15_writer_mem_example :
+  let ops := fun n => [OStart [97]; OStart [98]; OAppend 0 n (repeat 7 (N.to_nat n)); OAppend 1 n (repeat 8 (N.to_nat n));
+                       OAppend 0 n (repeat 9 (N.to_nat n)); OEnd 0; OEnd 1; OAdd [99; 100] n (repeat 3 (N.to_nat n)); OFinalize] in
+  let run := fun n => fst (wrun 48 0 1 254 255 (fun b => [len b]) (fun f => f) w_init (ops n)) in
+  Forall2 same_shape (ops 10) (ops 5000) /\
+  wmem (run 10) = 508 /\ wmem (run 5000) = 508 /\
+  nfiles (run 5000) = 3 /\ nruns (run 5000) = 7 /\ nopen (run 5000) = 0 /\
+  n_start (ops 5000) = 3 /\ n_append (ops 5000) = 4 /\ n_names (ops 5000) = 4 /\
+  W_FIXED + (FILES_ENTRY + IDS_ENTRY + OPEN_ENTRY + 2 * OFFSET_WORD) * 3 + OFFSET_WORD * 4 + 4 = 916.
+Proof.
+  split.
+  - repeat constructor; vm_compute; try reflexivity; try discriminate.
+  - vm_compute. repeat split; reflexivity.
+Qed.
+
+(* one append announcing 2^20 bytes (served short: an error, but the tables are updated first,
+   as in the code) adds exactly one run: the measure does not see the size *)
+Example C15_writer_huge_append :
+  let run := fun z => fst (wrun 48 0 1 254 255 (fun b => [len b]) (fun f => f) w_init
+                             [OStart [97]; OStart [98]; OAppend 0 z [1; 2; 3]]) in
+  wmem (run 3) = wmem (run (2 ^ 20)) /\ nruns (run (2 ^ 20)) = 3.
+Proof. vm_compute. split; reflexivity. Qed.
+
+(* FINDING about the bound itself: "runs <= files + append calls" is FALSE — end_file also calls
+   mark_continuous_block, so ending a file that is not the current one records an offset
+   without any append.  Hence the 2 * files term above. *)
+Theorem C15_runs_le_files_plus_appends_refuted :
+  exists ops, let s := fst (wrun 48 0 1 254 255 (fun b => [len b]) (fun f => f) w_init ops) in
+    nfiles s + n_append ops < nruns s.
+Proof. exists [OStart [97]; OStart [98]; OEnd 0]. vm_compute. reflexivity. Qed.
+
+(* ---------- layer writers ---------- *)
+
+(* encryption writer, every state reachable by any Write::write calls: the current-chunk
+   device holds at most CHUNK bytes (the Rust object keeps no plaintext at all); one write
+   encrypts at most min(CIPHERBUF, CHUNK) bytes in its temporary buffer *)
+Theorem C15_enc_writer_bounded :
+  forall CHUNK CIPHERBUF ks tagc bufs,
+    ew_held (ew_writes CHUNK CIPHERBUF ks tagc ew_init bufs) <= CHUNK.
+Proof. exact enc_writer_bounded. Qed.
+Theorem C15_enc_write_piece_bounded :
+  forall CHUNK CIPHERBUF ks tagc s buf s' n,
+    EwB CHUNK s -> ew_write CHUNK CIPHERBUF ks tagc s buf = Ok (s', n) ->
+    EwB CHUNK s' /\ n <= N.min CIPHERBUF CHUNK /\ n <= len buf.
+Proof. exact ew_write_bounded. Qed.
+
+Example C15_enc_writer_example :
+  let s := ew_writes 8 3 (fun i j => i + j) (fun i c => [i; len c]) ew_init [repeat 1 20%nat; []; repeat 2 7%nat; [5; 5; 5; 5]; [6; 6; 6]] in
+  ew_held s = 3 /\ ew_ctr s = 1 /\ EwB 8 s.
+Proof. vm_compute. repeat split; try reflexivity; discriminate. Qed.
+
+(* compression writer, after ANY sequence of Write::write calls (any buffers, empty ones
+   included) that accepted T bytes altogether: the block in progress holds at most BLOCK
+   bytes; the table compressed_sizes has T/BLOCK - 1 <= n <= T/BLOCK entries, exactly
+   n * BLOCK + buffered = T.
+   THIS IS THE ONE TERM THAT GROWS WITH THE BYTES STREAMED: 4 bytes per BLOCK bytes (per 4 MiB
+   at production constants: 1e-6 of the data; 1 TiB streamed = 1 MiB of table).  The property's
+   "does not grow with the number of bytes" ignores it; the format needs the table for its
+   footer, and the measuring job c15 allows for it (16 bytes per block).  Not a defect. *)
+Theorem C15_comp_sizes_table_growth :
+  forall BLOCK comp bufs, 0 < BLOCK -> BLOCK < 2 ^ 32 ->
+    let w := fst (cw_writes BLOCK comp cw_init 0 bufs) in
+    let T := snd (cw_writes BLOCK comp cw_init 0 bufs) in
+    cw_buffered w <= BLOCK /\
+    T / BLOCK <= len (cw_sizes w) + 1 /\ len (cw_sizes w) <= T / BLOCK /\
+    len (cw_sizes w) * BLOCK + cw_buffered w = T /\
+    cwmem w <= COMP_FIXED + BLOCK + 4 * (T / BLOCK) /\
+    COMP_FIXED + 4 * (T / BLOCK) <= cwmem w + 4.
+Proof. exact comp_sizes_table_growth. Qed.
+
+(* finalize moves the block in progress to the table: one more entry at most *)
+Theorem C15_comp_finalize_table :
+  forall comp w w', cw_finalize comp w = (w', Ok tt) ->
+    len (cw_sizes w') = len (cw_sizes w) + (match cw_st w with WInData _ _ => 1 | _ => 0 end) /\
+    cw_buffered w' = 0.
+Proof. exact cw_finalize_table. Qed.
+
+(* the canonical writer (pieces through write_all): exactly (L-1)/BLOCK entries for L > 0 *)
+Theorem C15_comp_sizes_table_exact :
+  forall BLOCK comp pieces w, 0 < BLOCK -> BLOCK < 2 ^ 32 -> concat pieces <> [] ->
+    cw_write_pieces BLOCK comp cw_init pieces = (w, Ok tt) ->
+    len (cw_sizes w) = (len (concat pieces) - 1) / BLOCK /\
+    cw_buffered w = len (concat pieces) - (len (concat pieces) - 1) / BLOCK * BLOCK.
+Proof. exact comp_sizes_table_exact. Qed.
+
+(* non-vacuity: BLOCK = 4; 3 + 0 + 9 + 2 bytes through write_all: 14 bytes, 3 entries, 2
+   buffered; the same through raw writes; 40 bytes: 9 entries — the table does grow *)
+Example C15_comp_table_example :
+  let wa := fst (cw_write_pieces 4 toy_comp cw_init [[1; 2; 3]; []; repeat 5 9%nat; [7; 7]]) in
+  let loop := fun b => (* write_all by hand: write until the buffer is taken *)
+    [b; dropN 4 b; dropN 8 b; dropN 12 b; dropN 16 b; dropN 20 b; dropN 24 b; dropN 28 b; dropN 32 b; dropN 36 b] in
+  len (cw_sizes wa) = 3 /\ cw_buffered wa = 2 /\ cwmem wa = COMP_FIXED + 2 + 12 /\
+  (let r := cw_writes 4 toy_comp cw_init 0 (loop (repeat 6 40%nat)) in
+   snd r = 40 /\ len (cw_sizes (fst r)) = 9 /\ cw_buffered (fst r) = 4).
+Proof. vm_compute. repeat split; reflexivity. Qed.
+
+(* ---------- linear extraction ---------- *)
+
+(* over ANY source: the peak of the measure of id2filename (+ the two 8 KiB buffers) over all
+   iterations of the loop is at most LX_FIXED + (32 + FNMAX) per FileStart block parsed,
+   whatever the FileContent blocks announce or carry (their data moves in pieces of at most
+   8 KiB: C15_copy_pieces_bounded).  lx_loop_g is lx_loop with two ghost outputs: its first
+   component IS lx_loop's result. *)
+Theorem C15_linear_extract_mem_bounded :
+  forall FNMAX TS TC TA TE (S : Stream) fuel s export,
+    let '(r, peak, starts) := lx_loop_g FNMAX TS TC TA TE S fuel s export [] [] 0 0 in
+    r = lx_loop FNMAX TS TC TA TE S fuel s export [] [] /\
+    peak <= LX_FIXED + (LX_ENTRY + FNMAX) * starts.
+Proof. exact linear_extract_mem_bounded. Qed.
+
+(* non-vacuity: two files, contents of 5 or 3000 bytes: same peak (two names of 1 byte) *)
+Example C15_linear_extract_example :
+  let arch := fun n =>
+    ser_block 0 1 254 255 (BStart 0 [97]) ++ ser_block 0 1 254 255 (BStart 1 [98]) ++
+    ser_block 0 1 254 255 (BContent 0 (repeat 7 n)) ++ ser_block 0 1 254 255 (BContent 1 (repeat 8 n)) ++
+    ser_block 0 1 254 255 (BEof 0 (repeat 0 32%nat)) ++ ser_block 0 1 254 255 (BEof 1 (repeat 0 32%nat)) ++
+    ser_block 0 1 254 255 BEnd in
+  let run := fun n => lx_loop_g 48 0 1 254 255 (Cursor (arch n)) 20 0 [[97]; [98]] [] [] 0 0 in
+  snd (fst (run 5%nat)) = LX_FIXED + 2 * LX_ENTRY + 2 /\ snd (fst (run 3000%nat)) = LX_FIXED + 2 * LX_ENTRY + 2 /\
+  snd (run 3000%nat) = 2 /\ is_ok (fst (fst (run 3000%nat))) = true.
+Proof. vm_compute. repeat split; reflexivity. Qed.
+
+(* the metadata an ArchiveReader holds while extracting (the footer map): 64 per file + the
+   names + 8 per run *)
+Theorem C15_reader_metadata_size :
+  forall m : footer, footer_mem m = FOOTER_ENTRY * len m + footer_names m + OFFSET_WORD * footer_runs m.
+Proof. exact footer_mem_eq. Qed.
+
+(* ---------- repair ---------- *)
+
+(* one FileContent block, WHATEVER its announced length and however many CACHE-sized pieces
+   it is appended in, adds at most ONE run to the output writer and nothing else *)
+Theorem C15_repair_content_block_one_run :
+  forall CACHE TC (S : Stream) fuel s out id rem got,
+    wgrow out (cl_out S (content_loop CACHE TC S fuel s out id rem got)) 0 0 1.
+Proof. exact content_loop_grow. Qed.
+
+(* over ANY source, from a fresh output writer, the loop state after any number `fuel` of
+   blocks (block_loop returns its state when the fuel — one unit per block — runs out: every
+   intermediate state at a block boundary is covered; within a block the only extra memory is
+   the CACHE buffer, counted): the measure of the five tables, the cache and the output
+   writer's tables is at most constants + CACHE + RP_PER_FILE (= 384 + 2 * FNMAX) per file of
+   the output + 8 per run; runs + open files <= 2 * files + blocks *)
+Theorem C15_repair_mem_bounded :
+  forall FNMAX CACHE TS TC TA TE H (S : Stream) fuel s0,
+    let st := fst (block_loop FNMAX CACHE TS TC TA TE H S fuel (mkRP S s0 w_init [] [] [] [])) in
+    let out := rp_out S st in
+    rpmem CACHE st <= RP_FIXED + CACHE + W_FIXED + (32 + FNMAX)
+                      + RP_PER_FILE FNMAX * nfiles out + OFFSET_WORD * nruns out /\
+    nruns out + nopen out <= 2 * nfiles out + N.of_nat fuel /\
+    len (rp_ids S st) <= nfiles out /\ len (rp_names S st) <= nfiles out + 1 /\
+    len (rp_done S st) <= nfiles out /\ len (rp_hash S st) <= nfiles out.
+Proof. exact repair_mem_bounded. Qed.
+
+(* the writer returned by the whole of repair (clean-up and finalize included) *)
+Theorem C15_repair_result_mem :
+  forall FNMAX CACHE TS TC TA TE H (S : Stream) fuel s0 status unfinished out,
+    repair FNMAX CACHE TS TC TA TE H S fuel s0 w_init = Ok (status, unfinished, out) ->
+    wmem out <= W_FIXED + (FILES_ENTRY + IDS_ENTRY + OPEN_ENTRY + FNMAX) * nfiles out + OFFSET_WORD * nruns out /\
+    nruns out + nopen out <= 2 * nfiles out + N.of_nat fuel.
+Proof. exact repair_result_mem. Qed.
+
+(* non-vacuity: a truncated archive (two files, interleaved contents, no EndOfFile) repaired
+   with CACHE = 16: contents of 5 bytes (1 piece each) or 100 bytes (7 pieces each) give the
+   same measure of the loop state and the same 4 runs; and the bound *)
+Example C15_repair_mem_example :
+  let arch := fun n =>
+    ser_block 0 1 254 255 (BStart 5 [97]) ++ ser_block 0 1 254 255 (BStart 9 [98; 99]) ++
+    ser_block 0 1 254 255 (BContent 5 (repeat 7 n)) ++ ser_block 0 1 254 255 (BContent 9 (repeat 8 n)) ++
+    ser_block 0 1 254 255 (BContent 9 (repeat 6 n)) in
+  let run := fun n => fst (block_loop 48 16 0 1 254 255 (fun b => [len b]) (Cursor (arch n)) 2000 (mkRP (Cursor (arch n)) 0 w_init [] [] [] [])) in
+  rpmem 16 (run 5%nat) = rpmem 16 (run 100%nat) /\
+  nruns (rp_out _ (run 100%nat)) = 4 /\ nfiles (rp_out _ (run 100%nat)) = 2 /\
+  len (w_out (rp_out _ (run 100%nat))) = 694 /\
+  rpmem 16 (run 100%nat) = 1270 /\
+  RP_FIXED + 16 + W_FIXED + (32 + 48) + RP_PER_FILE 48 * 2 + OFFSET_WORD * 4 = 1552.
+Proof. vm_compute. repeat split; reflexivity. Qed.
+
+Print Assumptions C15_writer_mem_bound.
+Print Assumptions C15_writer_mem_growth.
+Print Assumptions C15_writer_mem_shape_only.
+Print Assumptions C15_runs_le_files_plus_appends_refuted.
+Print Assumptions C15_enc_writer_bounded.
+Print Assumptions C15_enc_write_piece_bounded.
+Print Assumptions C15_comp_sizes_table_growth.
+Print Assumptions C15_comp_finalize_table.
+Print Assumptions C15_comp_sizes_table_exact.
+Print Assumptions C15_linear_extract_mem_bounded.
+Print Assumptions C15_reader_metadata_size.
+Print Assumptions C15_repair_content_block_one_run.
+Print Assumptions C15_repair_mem_bounded.
+Print Assumptions C15_repair_result_mem.
